@@ -16,6 +16,14 @@ import ScrapliModel.Bytes
                `except asyncio.TimeoutError: buf = b""`            (a connection error propagates)
 
       everything below the read is the same text in both files and is `afterRead`.
+  Idealisations of this model (they bound what `auth_variants_agree` says about the code):
+    * a timed-out poll is an empty read: cancelling `transport.read()` loses no bytes.  True for the shipped
+      asyncio transports (buffers live in `self` / in the StreamReader); exercised with the REAL `asyncio.wait_for`
+      only by the kick rig (blocking Sim transport), the tape harness scripts the time-out;
+    * on `eof` the sync loop's `send_return()` SUCCEEDS (it "stays pending").  On a transport that is dead for writes too
+      the write raises and ScrapliConnectionError leaves the method — same class as asyncio; the model does not have
+      that event, the paired runs do (fault plans);
+    * the clock is read only at empty reads, as in the code; `now` on other events is ignored.
   Core Lean only; executable (Drv/C06.lean).
 -/
 namespace Scrapli.ParityRun
